@@ -28,6 +28,7 @@ def _ver(rng):
         if rng.random() < 0.3: t[rng.randrange(3)] = rng.choice([9, 10, 11, 99, 100])
     else:
         t = [rng.choice([0, 1, 2, 3, 10]), rng.randint(0, 12), rng.randint(0, 120)]
+    if rng.random() < 0.08: t[rng.randrange(3)] = rng.choice([999, 1000, 1001, 9999, 10**6, 2**31])          # fields of four and more digits (date-like build numbers)
     n = rng.choice([3, 3, 3, 2, 1, 4])
     t = (t + [rng.choice([0, 0, 1])])[:n]
     s = ".".join(("0" + str(x)) if rng.random() < 0.05 else str(x) for x in t)
